@@ -1,7 +1,7 @@
 /-
-  Lemmas/PacketsIndex — the pending-by-address index of M-Packets is exact in every history without
-  eIBC fulfilment: it lists every pending packet under its beneficiary and nothing else.
-  (With fulfilment the statement is false of the current code, see Props/C04.)
+  Lemmas/PacketsIndex — the pending-by-address index of M-Packets is exact in every history: it lists
+  every pending packet under its current beneficiary (the fulfiller / LP after a fulfilment) and
+  nothing else.  (True since `RestoreOriginalTransferTarget` stopped rewriting the caller's packet.)
 
   The proof needs that a newly recorded packet never lands on a key already in the store; this is
   where C19's injectivity of the packet key enters (rollapp and channel ids without '/', uint64
@@ -130,7 +130,6 @@ theorem key_determines_uid {s : St} {p q : Packet} (hc : CfgOk s) (hp : PktOk s 
 structure IdxInv (s : St) : Prop where
   cfg : CfgOk s
   pk : ∀ q ∈ s.packets, PktOk s q
-  orig : ∀ q ∈ s.packets, q.orig = none
   fwd : ∀ p ∈ s.packets, p.status = .pending → (p.target, pkey p) ∈ s.byAddr
   bwd : ∀ e ∈ s.byAddr, ∃ p ∈ s.packets, pkey p = e.2 ∧ p.status = .pending ∧ p.target = e.1
 
@@ -149,12 +148,11 @@ theorem IFrame.ofD {s s' : St} (f : DFrame s s') : IFrame s s' := ⟨f.packets, 
 theorem IdxInv.of_frame {s s' : St} (f : IFrame s s') (h : IdxInv s) : IdxInv s' where
   cfg := h.cfg.congr f.chans f.ids
   pk := by rw [f.packets]; exact fun q hq => (h.pk q hq).congr f.chans f.ids
-  orig := by rw [f.packets]; exact h.orig
   fwd := by rw [f.packets, f.byAddr]; exact h.fwd
   bwd := by rw [f.packets, f.byAddr]; exact h.bwd
 
 /-- recording a new pending packet under a key not yet in the store -/
-theorem IdxInv.record {s : St} (h : IdxInv s) (p : Packet) (hs : p.status = .pending) (ho : p.orig = none) (hp : PktOk s p)
+theorem IdxInv.record {s : St} (h : IdxInv s) (p : Packet) (hs : p.status = .pending) (hp : PktOk s p)
     (fresh : ∀ q ∈ s.packets, pkey q ≠ pkey p) :
     IdxInv (setPacket (addByAddr s p.target (pkey p)) p) where
   cfg := CfgOk.congr (s := s) rfl rfl h.cfg
@@ -163,11 +161,6 @@ theorem IdxInv.record {s : St} (h : IdxInv s) (p : Packet) (hs : p.status = .pen
     rcases mem_setPacket.mp hq with rfl | ⟨hq', _⟩
     · exact PktOk.congr (s := s) rfl rfl hp
     · exact PktOk.congr (s := s) rfl rfl (h.pk q hq')
-  orig := by
-    intro q hq
-    rcases mem_setPacket.mp hq with rfl | ⟨hq', _⟩
-    · exact ho
-    · exact h.orig q hq'
   fwd := by
     intro q hq hqs
     show (q.target, pkey q) ∈ (addByAddr s p.target (pkey p)).byAddr
@@ -187,7 +180,6 @@ theorem IdxInv.delete {s : St} (h : IdxInv s) (hk : KeysNodup s.packets) (p : Pa
     IdxInv (delByAddr (delPacket s (pkey p)) p.target (pkey p)) where
   cfg := CfgOk.congr (s := s) rfl rfl h.cfg
   pk := fun q hq => PktOk.congr (s := s) rfl rfl (h.pk q (mem_delPacket.mp hq).1)
-  orig := fun q hq => h.orig q (mem_delPacket.mp hq).1
   fwd := by
     intro q hq hqs
     obtain ⟨hq1, hq2⟩ := mem_delPacket.mp hq
@@ -215,9 +207,6 @@ theorem idx_deletePacket {s : St} (h : IdxInv s) (hk : KeysNodup s.packets) (p :
   unfold deletePacket
   exact IdxInv.of_frame (IFrame.ofD ((frame_delOrder _ _ _).trans (frame_delOrder _ _ _))) (h.delete hk p hp)
 
-theorem restoreTarget_of_orig_none {p : Packet} (h : p.orig = none) : restoreTarget p = p := by
-  unfold restoreTarget; rw [h]
-
 theorem idx_foldl_delete : ∀ (l : List Packet) {s : St}, Inv04 s → IdxInv s → (∀ p ∈ l, p ∈ s.packets) →
     l.Pairwise (fun a b => pkey a ≠ pkey b) → IdxInv (l.foldl deletePacket s)
   | [], _, _, hi, _, _ => hi
@@ -237,11 +226,6 @@ theorem iframe_revertIbc (s : St) (p : Packet) : IFrame s (revertIbc s p) := by
 theorem idx_revertPacket {s : St} (h : IdxInv s) (hk : KeysNodup s.packets) (p : Packet) (hp : p ∈ s.packets) :
     IdxInv (revertPacket s p) := by
   unfold revertPacket
-  have e : (if (p.ptype == PType.onRecv) = true then p else restoreTarget p) = p := by
-    split
-    · rfl
-    · exact restoreTarget_of_orig_none (h.orig p hp)
-  rw [e]
   have f := iframe_revertIbc s p
   exact idx_deletePacket (IdxInv.of_frame f h) (by rw [f.packets]; exact hk) p (by rw [f.packets]; exact hp)
 
@@ -260,7 +244,7 @@ theorem idx_foldl_revert : ∀ (l : List Packet) {s : St}, Inv04 s → IdxInv s 
     · exact hpw.2
 
 /-- storing the finalized version of a packet -/
-theorem IdxInv.setFinalized {s : St} (h : IdxInv s) (p : Packet) (hs : p.status = .finalized) (hp : PktOk s p) (ho : p.orig = none) :
+theorem IdxInv.setFinalized {s : St} (h : IdxInv s) (p : Packet) (hs : p.status = .finalized) (hp : PktOk s p) :
     IdxInv (setPacket s p) where
   cfg := CfgOk.congr (s := s) rfl rfl h.cfg
   pk := by
@@ -268,11 +252,6 @@ theorem IdxInv.setFinalized {s : St} (h : IdxInv s) (p : Packet) (hs : p.status 
     rcases mem_setPacket.mp hq with rfl | ⟨hq', _⟩
     · exact PktOk.congr (s := s) rfl rfl hp
     · exact PktOk.congr (s := s) rfl rfl (h.pk q hq')
-  orig := by
-    intro q hq
-    rcases mem_setPacket.mp hq with rfl | ⟨hq', _⟩
-    · exact ho
-    · exact h.orig q hq'
   fwd := by
     intro q hq hqs
     rcases mem_setPacket.mp hq with rfl | ⟨hq', _⟩
@@ -294,6 +273,70 @@ theorem PktOk.of_fields {s : St} {p q : Packet} (h : PktOk s p) (h1 : q.chan = p
 
 -- ------------------------------------------------------------------ operations (no fulfilment)
 
+/-- `UpdateRollappPacketTransferAddress`: the packet and its index entry move to the new beneficiary -/
+theorem idx_updateTransferAddress {s s' : St} {k : Bytes} {a : Addr} (h : IdxInv s) (hk : KeysNodup s.packets)
+    (hu : updateTransferAddress s k a = .ok s') : IdxInv s' := by
+  obtain ⟨p, hp, hst, rfl⟩ := updateTransferAddress_ok hu
+  obtain ⟨hmem, hkey⟩ := getPacket_some hp
+  subst hkey
+  refine ⟨CfgOk.congr (s := s) rfl rfl h.cfg, ?_, ?_, ?_⟩
+  · intro q hq
+    rcases mem_setPacket.mp hq with rfl | ⟨hq', _⟩
+    · exact PktOk.congr (s := s) rfl rfl (PktOk.of_fields (h.pk p hmem) rfl rfl rfl rfl rfl rfl)
+    · exact PktOk.congr (s := s) rfl rfl (h.pk q hq')
+  · intro q hq hqs
+    show (q.target, pkey q) ∈ (addByAddr (delByAddr s p.target (pkey p)) a (pkey (retarget p a))).byAddr
+    rcases mem_setPacket.mp hq with rfl | ⟨hq', hne⟩
+    · exact mem_addByAddr.mpr (Or.inl rfl)
+    · refine mem_addByAddr.mpr (Or.inr (mem_delByAddr.mpr ⟨h.fwd q hq' hqs, ?_⟩))
+      intro e
+      exact hne (congrArg Prod.snd e)
+  · intro e he
+    have he' : e ∈ (addByAddr (delByAddr s p.target (pkey p)) a (pkey (retarget p a))).byAddr := he
+    rcases mem_addByAddr.mp he' with rfl | he''
+    · exact ⟨retarget p a, mem_setPacket.mpr (Or.inl rfl), rfl, hst, rfl⟩
+    · obtain ⟨he1, he2⟩ := mem_delByAddr.mp he''
+      obtain ⟨q, hq, h1, h2, h3⟩ := h.bwd e he1
+      refine ⟨q, mem_setPacket.mpr (Or.inr ⟨hq, ?_⟩), h1, h2, h3⟩
+      intro hqp
+      have : q = p := keysNodup_eq hk hmem hq hqp
+      subst this
+      exact he2 (Prod.ext h3.symm h1.symm)
+
+theorem idx_setOrderFulfilled {s s' : St} {o f c} (h4 : Inv04 s) (h : IdxInv s) (hu : setOrderFulfilled s o f c = .ok s') : IdxInv s' := by
+  unfold setOrderFulfilled at hu
+  have fr := frame_setOrder s { o with fulfiller := some f }
+  exact idx_updateTransferAddress (IdxInv.of_frame (IFrame.ofD fr) h) (InvF.keys (Inv04.of_frame fr h4)) hu
+
+theorem idx_fulfillCore {s s' : St} {o f} (h4 : Inv04 s) (h : IdxInv s) (hu : fulfillCore s o f = .ok s') : IdxInv s' := by
+  unfold fulfillCore at hu
+  split at hu
+  · cases hu
+  · split at hu
+    · cases hu
+    · rename_i s1 hs
+      have fr := frame_sendCoins hs
+      exact idx_setOrderFulfilled (Inv04.of_frame fr h4) (IdxInv.of_frame (IFrame.ofD fr) h) hu
+
+theorem idx_onDemandLoop {o : Order} : ∀ (l : List LP) {s s' : St}, Inv04 s → IdxInv s → onDemandLoop s o l = .ok s' → IdxInv s'
+  | [], s, s', _, _, hu => by unfold onDemandLoop at hu; cases hu
+  | x :: rest, s, s', h4, h, hu => by
+    unfold onDemandLoop at hu
+    split at hu
+    · split at hu
+      · cases hu
+      · have fr := frame_delLp s x.id
+        exact idx_onDemandLoop rest (Inv04.of_frame fr h4) (IdxInv.of_frame (IFrame.ofD fr) h) hu
+    · cases hu
+    · rename_i s1 hf
+      cases hu
+      exact IdxInv.of_frame (IFrame.ofD (frame_setLp s1 _)) (idx_fulfillCore h4 h hf)
+
+theorem idx_fulfillAuthorizedCore {s s' : St} {m} (h4 : Inv04 s) (h : IdxInv s) (hu : fulfillAuthorizedCore s m = .ok s') : IdxInv s' := by
+  obtain ⟨o, _, _, s1, s2, hs1, hs2, hf⟩ := fulfillAuthorizedCore_ok hu
+  have fr := (frame_sendCoins hs1).trans (frame_payOperator hs2)
+  exact idx_setOrderFulfilled (Inv04.of_frame fr h4) (IdxInv.of_frame (IFrame.ofD fr) h) hf
+
 theorem idx_finalizePacket {s s' : St} {k : Bytes} (h4 : Inv04 s) (h : IdxInv s) (hf : finalizePacket s k = .ok s') : IdxInv s' := by
   unfold finalizePacket at hf
   split at hf
@@ -306,12 +349,6 @@ theorem idx_finalizePacket {s s' : St} {k : Bytes} (h4 : Inv04 s) (h : IdxInv s)
       split at hf
       · cases hf
       · cases hf
-        have ho := h.orig p hmem
-        have hfr : finalizedRecord p (releaseEffect s p).2 = { p with failed := p.failed || (releaseEffect s p).2 } := by
-          unfold finalizedRecord
-          rw [restoreTarget_of_orig_none ho]
-          split <;> rfl
-        rw [hfr]
         apply IdxInv.of_frame (IFrame.ofD (frame_afterPacketStatusUpdated _ _ _ _))
         have fA : IFrame s (logRelease (releaseEffect s p).1 p (some p.rollappId) true) :=
           (IFrame.ofD (frame_releaseEffect s p)).trans (iframe_logRelease _ _ _ _)
@@ -323,7 +360,7 @@ theorem idx_finalizePacket {s s' : St} {k : Bytes} (h4 : Inv04 s) (h : IdxInv s)
         have hD := hA.delete hkA p hmA
         have hP : PktOk (logRelease (releaseEffect s p).1 p (some p.rollappId) true) p := hA.pk p hmA
         exact IdxInv.setFinalized hD _ rfl (PktOk.congr (s := logRelease (releaseEffect s p).1 p (some p.rollappId) true) rfl rfl
-          (PktOk.of_fields hP rfl rfl rfl rfl rfl rfl)) ho
+          (PktOk.of_fields hP rfl rfl rfl rfl rfl rfl))
 
 theorem idx_recvPacket {s : St} (c seq ph : Nat) (d : RecvData) (h4 : Inv04 s) (h : IdxInv s) (hph : ph < 2 ^ 64) (hseq : seq < 2 ^ 64) :
     IdxInv (recvPacket s c seq ph d).1 := by
@@ -369,7 +406,7 @@ theorem idx_recvPacket {s : St} (c seq ph : Nat) (d : RecvData) (h4 : Inv04 s) (
                 have hP : PktOk s0 (mkRecvPacket s0 c seq ph ((some rid).getD []) d tgt) := by
                   refine ⟨hra, ?_, hph, hseq⟩
                   simp [mkRecvPacket]
-                apply IdxInv.record h0 _ rfl rfl hP
+                apply IdxInv.record h0 _ rfl hP
                 intro q hq hk
                 obtain ⟨hu, hst⟩ := key_determines_uid h0.cfg hP (h0.pk q hq) hk
                 rw [f0.packets] at hq
@@ -416,7 +453,7 @@ theorem idx_ackPacket {s s' : St} {c seq ph : Nat} {isTimeout isErr : Bool} (h4 
           have key : IdxInv (setPacket (addByAddr s0 (mkSentPacket s0 x (sentType isTimeout) ph ((some rid).getD []) (!isTimeout && isErr)).target
               (pkey (mkSentPacket s0 x (sentType isTimeout) ph ((some rid).getD []) (!isTimeout && isErr))))
               (mkSentPacket s0 x (sentType isTimeout) ph ((some rid).getD []) (!isTimeout && isErr))) := by
-            apply IdxInv.record h0 _ rfl rfl hP
+            apply IdxInv.record h0 _ rfl hP
             intro q hq hk
             obtain ⟨hu, hst⟩ := key_determines_uid h0.cfg hP (h0.pk q hq) hk
             rw [f0.packets] at hq
@@ -434,14 +471,11 @@ theorem idx_ackPacket {s s' : St} {c seq ph : Nat} {isTimeout isErr : Bool} (h4 
             · cases ha
               exact key
 
-/-- operations of a history without eIBC fulfilment, with uint64 heights and sequences -/
-def PlainOp : Op → Prop
+/-- packet operations carry uint64 proof heights and sequences -/
+def BoundedOp : Op → Prop
   | .recv _ seq ph _ => ph < 2 ^ 64 ∧ seq < 2 ^ 64
   | .ack _ seq ph _ => ph < 2 ^ 64 ∧ seq < 2 ^ 64
   | .timeout _ seq ph => ph < 2 ^ 64 ∧ seq < 2 ^ 64
-  | .fulfill .. => False
-  | .fulfillAuth .. => False
-  | .onDemand .. => False
   | _ => True
 
 theorem idx_setRa {s : St} (r : Rollapp) (h : IdxInv s) : IdxInv (setRa s r) :=
@@ -452,7 +486,7 @@ theorem idx_ofM {s : St} {m : M St} (h : IdxInv s) (hm : ∀ s', m = .ok s' → 
   | ok s' => exact hm s' rfl
   | error e => exact h
 
-theorem idx_step {s : St} (o : Op) (hp : PlainOp o) (h4 : Inv04 s) (h : IdxInv s) : IdxInv (step s o).1 := by
+theorem idx_step {s : St} (o : Op) (hp : BoundedOp o) (h4 : Inv04 s) (h : IdxInv s) : IdxInv (step s o).1 := by
   cases o with
   | recv c seq ph d => exact idx_recvPacket c seq ph d h4 h hp.1 hp.2
   | send a c d amt =>
@@ -497,9 +531,31 @@ theorem idx_step {s : St} (o : Op) (hp : PlainOp o) (h4 : Inv04 s) (h : IdxInv s
     · split at e
       · cases e
       · exact idx_finalizePacket h4 h e
-  | fulfill a oid fee => exact hp.elim
-  | fulfillAuth g m => exact hp.elim
-  | onDemand a oid perm => exact hp.elim
+  | fulfill a oid fee =>
+    apply idx_ofM h
+    intro s' e
+    obtain ⟨o, _, _, hc⟩ := msgFulfill_ok e
+    exact idx_fulfillCore h4 h hc
+  | fulfillAuth g m =>
+    apply idx_ofM h
+    intro s' e
+    obtain ⟨_, hcase⟩ := msgFulfillAuthorized_ok e
+    rcases hcase with ⟨_, hc⟩ | ⟨_, gr, r, _, _, hc⟩
+    · exact idx_fulfillAuthorizedCore h4 h hc
+    · cases r with
+      | none =>
+        have fr := frame_delGrant s m.lp g
+        exact idx_fulfillAuthorizedCore (s := delGrant s m.lp g) (Inv04.of_frame fr h4) (IdxInv.of_frame (IFrame.ofD fr) h) hc
+      | some g' =>
+        have fr := frame_setGrant s g'
+        exact idx_fulfillAuthorizedCore (s := setGrant s g') (Inv04.of_frame fr h4) (IdxInv.of_frame (IFrame.ofD fr) h) hc
+  | onDemand a oid perm =>
+    apply idx_ofM h
+    intro s' e
+    unfold msgOnDemand at e
+    split at e
+    · cases e
+    · exact idx_onDemandLoop _ h4 h e
   | updateFee a id fee => exact idx_ofM h (fun _ e => IdxInv.of_frame (IFrame.ofD (frame_msgUpdateFee e)) h)
   | createLp l ok => exact idx_ofM h (fun _ e => IdxInv.of_frame (IFrame.ofD (frame_msgCreateLp e)) h)
   | deleteLps a ids => exact idx_ofM h (fun _ e => IdxInv.of_frame (IFrame.ofD (frame_msgDeleteLps ids e)) h)
@@ -549,7 +605,7 @@ theorem idx_step {s : St} (o : Op) (hp : PlainOp o) (h4 : Inv04 s) (h : IdxInv s
     · exact List.Pairwise.filter _ (InvF.keys h4)
   | block => exact IdxInv.of_frame (s := s) (s' := { s with h := s.h + 1 }) ⟨rfl, rfl, rfl, rfl⟩ h
 
-theorem idx_run : ∀ (ops : List Op) {s : St}, (∀ o ∈ ops, PlainOp o) → Inv04 s → IdxInv s → IdxInv (run s ops)
+theorem idx_run : ∀ (ops : List Op) {s : St}, (∀ o ∈ ops, BoundedOp o) → Inv04 s → IdxInv s → IdxInv (run s ops)
   | [], _, _, _, h => h
   | o :: rest, s, hp, h4, h => by
     show IdxInv (run (step s o).1 rest)
